@@ -226,7 +226,7 @@ func runRef(src string) (report, bool) {
 func sameFrame(a, b frame) bool {
 	// line 0 = the reference leaves this frame's call-site position unspecified
 	// (a handler invoked by handler-bind has no call expression of its own)
-	if a.Line != 0 && b.Line != 0 && (a.Line != b.Line || a.Col != b.Col) {
+	if b.Line != 0 && (a.Line != b.Line || a.Col != b.Col) { // a = the real frame, b = the reference frame
 		return false
 	}
 	// anonymous functions have no name on one or both sides
